@@ -116,6 +116,7 @@ type FnCtx struct {
 	assumed   map[string]bool // callee contracts used (for trusted base)
 	inlined   map[string]bool
 	deriv     map[string]derivInfo
+	lockInit  map[string][][2]string
 	dry       int
 	noFacts   int
 	masks     map[string]string // term -> shift term s, for (2^s - 1)
@@ -168,7 +169,16 @@ func (c *FnCtx) heapGet(st *State, name, sort string) string {
 		panic(fmt.Sprintf("heap array %s used at sorts %s and %s", name, old, sort))
 	}
 	c.heapSorts[name] = sort
+	_, already := c.sc.declared[sym(name+"!0")]
 	v := c.sc.declare(name+"!0", sort)
+	if !already && strings.HasPrefix(name, "LK:") {
+		// locks held by this thread at entry: none, except those declared by `holds`
+		init := "((as const (Array Int Int)) 0)"
+		for _, li := range c.lockInit[name] {
+			init = "(store " + init + " " + li[0] + " " + li[1] + ")"
+		}
+		c.sc.assert(sEq(v, init))
+	}
 	st.heap[name] = v
 	// all states share the initial version by name, so no propagation needed
 	return v
